@@ -149,9 +149,11 @@ pub fn guarded(exec: &dyn Fn(&Op) -> String, op: &Op) -> String {
 /// Mutate one argument.  If the argument is valid UTF-8 the result stays valid UTF-8 with
 /// probability ~3/4 (so that `&str` entry points are still reached), otherwise raw bytes.
 pub fn mutate_arg(rng: &mut Rng, a: &[u8]) -> Vec<u8> {
-    let specials: [&[u8]; 24] = [
+    let specials: [&[u8]; 48] = [
         b"", b"\0", b"\n", b"\r\n", b" ", b"\t", b"-", b"=", b":", b"/", b"..", b"{", b"}", b",", b"*", b"?", b"[", b"]",
         b"<", b">", b">=", b"99999999999999999999", b"nb", b"@",
+        b"^", b"$", b"!", b"\\", b"#", b"(", b")", b"+", b"~", b"\x0b", b"\x0c", b"\r", b"pre", b"rc", b"alpha", b"pl",
+        b"$NetBSD", b"PKGNAME=", b"../", b"./", b"\n\n", b"nb1", b"0", b"_",
     ];
     let high: [&[u8]; 8] = [b"\xff", b"\xc3", b"\xe2\x82", b"\x80", b"\xa0", b"\x85", b"\xc3\xa9", b"\xf0\x9f\x92\x96"];
     let as_str = std::str::from_utf8(a).ok();
@@ -192,7 +194,8 @@ pub fn mutate_arg(rng: &mut Rng, a: &[u8]) -> Vec<u8> {
         6 => {
             let c = pick_cut(rng);
             if keep_utf8 {
-                out.splice(c..c, "é€𐀀\u{212A}\u{a0}".as_bytes().iter().cloned());
+                let ins: &str = *rng.pick::<&str>(&["é€𐀀\u{212A}\u{a0}", "\u{212A}", "\u{130}", "\u{17F}", "\u{85}", "\u{2003}", "é", "\u{3000}"]);
+                out.splice(c..c, ins.as_bytes().iter().cloned());
             } else {
                 let ins: &[u8] = *rng.pick::<&[u8]>(&high);
                 out.splice(c..c, ins.iter().cloned());
@@ -230,6 +233,31 @@ pub fn mutate_arg(rng: &mut Rng, a: &[u8]) -> Vec<u8> {
     out
 }
 
+/// Run a property's own generator and append mutations of a sample of its ops ("oracle fuzz"):
+/// the property's oracle judges whatever it can of the mutated inputs (out-of-domain ones are
+/// `na`), which widens the input space far beyond what the hand-written families cover.
+pub fn with_oracle_fuzz(
+    tier: &str,
+    rng: &mut Rng,
+    emit: &mut dyn FnMut(Op),
+    g: &dyn Fn(&str, &mut Rng, &mut dyn FnMut(Op)),
+) {
+    let mut pool: Vec<Op> = vec![];
+    let mut k = 0usize;
+    g(tier, rng, &mut |op: Op| {
+        k += 1;
+        if k % 5 == 0 || pool.len() < 300 {
+            pool.push(op.clone());
+        }
+        emit(op);
+    });
+    // ops whose extra arguments are derived from the data (reference hashes) or that build
+    // directory trees are not mutated
+    pool.retain(|o| !matches!(o.name.as_str(), "distinfo.verify" | "entry.verify" | "pkgdb.iter"));
+    let n = if tier == "thorough" { 15000 } else { 1500 };
+    fuzz(&pool, n, rng, emit);
+}
+
 /// Fuzz stream for C17: mutations of the ops of every other generator of the cluster.
 /// Inherently exponential inputs are capped (brace groups, glob stars, total size).
 pub fn fuzz(pool: &[Op], n: usize, rng: &mut Rng, emit: &mut dyn FnMut(Op)) {
@@ -251,7 +279,11 @@ pub fn fuzz(pool: &[Op], n: usize, rng: &mut Rng, emit: &mut dyn FnMut(Op)) {
             "scanindex.read" => vec![0],
             "metadata.read" => (0..op.args.len()).filter(|i| i % 2 == 1).collect(),
             "metadata.name" => vec![],
+            // encoded component vectors for the comparison hook: protocol, not data
+            "dewey.rawcmp" => vec![],
             "distinfo.verify" => vec![0, 1, 2],
+            // the bracketing program of a reduction is a control word
+            "pattern.reduce" => (0..op.args.len()).filter(|i| *i != 1).collect(),
             _ => (0..op.args.len()).collect(),
         };
         if data_args.is_empty() {
